@@ -14,6 +14,7 @@
 -/
 import Nq.Lemmas.SmtpSession
 import Nq.Lemmas.SmtpAddr
+import Nq.Lemmas.SmtpLip
 
 namespace Nq.Props.C08
 open Nq Nq.SmtpIn Nq.SmtpSession Nq.SmtpPolicy Nq.Lemmas.Smtp
@@ -134,12 +135,9 @@ theorem C08_bmf_spec (cfg : Cfg) (a : Bytes) : bmfcheck cfg a = true ↔ BadSend
 
 /-- **Length limit.** What addrparse accepts has at most 899 bytes (900 with its NUL)… -/
 theorem C08_len (cfg : Cfg) (arg a : Bytes) (h : addrparse cfg arg = some a) : a.length < 900 := by
-  unfold addrparse at h
-  split at h
-  · simp at h
-  · simp at h; subst h
-    have : Gen.ADDRMAX = 900 := rfl
-    omega
+  have := addrparse_limit cfg arg a h
+  have : addrLimit = 900 := rfl
+  omega
 
 /-- …and anything longer is a syntax error for MAIL and for RCPT alike, leaving the state untouched. -/
 theorem C08_len_refused (cfg : Cfg) (s : Sess) (arg : Bytes) (h : 900 ≤ (addrCore cfg arg).length) (hm : s.seenmail = true) :
@@ -159,6 +157,13 @@ theorem C08_liphost (cfg : Cfg) (h box d1 d2 d3 d4 : Bytes) (hh : cfg.liphost = 
     (hip : cfg.ipme.contains (numVal d1, numVal d2, numVal d3, numVal d4) = true) :
     lipSubst cfg (box ++ AT :: ipLit d1 d2 d3 d4) = box ++ AT :: h :=
   lipSubst_literal cfg h box d1 d2 d3 d4 hh h1 h2 h3 h4 hip
+
+/-- …for *every* address: the scanner of ip.c (`scanBracket`: `scan_ulong` wrap-around, truncation to a byte)
+and the independent split-at-dots reading of `[d.d.d.d]` used by the oracle (`lipSpec`/`ipLiteral`) agree, so the
+address left by addrparse is the quoted-and-routed-stripped argument with a local literal domain replaced. -/
+theorem C08_liphost_spec (cfg : Cfg) (arg : Bytes) :
+    addrCore cfg arg = lipSpec cfg (addrRaw arg) ∧ ∀ a, lipSubst cfg a = lipSpec cfg a :=
+  ⟨lipSubst_eq_spec cfg (addrRaw arg), lipSubst_eq_spec cfg⟩
 
 theorem C08_liphost_only (cfg : Cfg) (a : Bytes) :
     lipSubst cfg a = a ∨ ∃ h p d ip, cfg.liphost = some h ∧ splitLastAt a = some (p, d) ∧ scanBracket d = some (ip, []) ∧
@@ -196,11 +201,11 @@ theorem C08_verbs :
 /-- rcpthosts = {local.example → "l.e", ".w.e"}; a session MAIL, RCPT ok, RCPT foreign, DATA submits exactly one recipient -/
 def cfgEx : Cfg := { rh := some [[108, 46, 101], [46, 119, 46, 101]], bmf := some [[64, 98]] }
 
--- "<s@x>", "<u@L.E>" (upper case), "<u@a.W.e>" (wildcard), "<u@w.e>" (not covered), "<u@r>"
+-- "<s@x>", "<u@L.E>" (upper case), "<u@a.W.e>" (wildcard), "<u@w.e>" (not covered), RSET, DATA, MAIL, "<u@r>", ":u" (no @)
 example :
     (trace cfgEx {} [.mail [60, 115, 64, 120, 62], .rcpt [60, 117, 64, 76, 46, 69, 62], .rcpt [60, 117, 64, 97, 46, 87, 46, 101, 62],
         .rcpt [60, 117, 64, 119, 46, 101, 62], .rset, .data {}, .mail [60, 115, 64, 120, 62], .rcpt [60, 117, 64, 114, 62],
-        .rcpt [117], .data {}]).map (fun x => (x.2.replies, x.2.submit)) =
+        .rcpt [58, 117], .data {}]).map (fun x => (x.2.replies, x.2.submit)) =
       [([.mailok], none), ([.rcptok], none), ([.rcptok], none), ([.nogateway], none), ([.flushed], none), ([.wantmail], none),
        ([.mailok], none), ([.nogateway], none), ([.rcptok], none),
        ([.go, .accepted], some ⟨[115, 64, 120], [[117]], []⟩)] := by decide
